@@ -1460,6 +1460,7 @@ def report_model(ctx, sk, results):
                                        "leak-violates-ScopeRestored: the theorem does not separate the machine from its leaking "
                                        "variant)" % sorted(set(WITNESSES) - set(seen)))
             ctx.cov["model_witnesses_observed"] = seen
+            ctx.add_tlc(res, "PyExprMC: all %d witness conditions observed (run stops at the last one; skeletons + leaking variants)" % len(seen))
     ctx.cov["model_skeletons"] = len(sk)
     ctx.cov["model_scope_skeletons"] = sum(1 for s in sk if set(s["scoped"]) & set(s["env0"]))
     ctx.cov["model_theorems"] = ["NoStuck", "AtMostOnce", "InOrder", "InOrderLoop", "RaiseLast", "NoSpontaneous", "ScopeRestored"]
